@@ -98,6 +98,11 @@ func mustStr(m schema.MustContext) string {
 }
 
 // TypeString renders a type completely.
+// KeepListOrder: leave the lists that the implementation returns as slices (identities of an
+// identityref, enabled features and deviating modules of a model) in the order it returned them.
+// Set by C11, which compares repeated compilations of one set; all other checks compare sorted lists.
+var KeepListOrder bool
+
 func TypeString(t schema.Type) string {
 	if t == nil {
 		return "<nil type>"
@@ -151,7 +156,9 @@ func TypeString(t schema.Type) string {
 		for _, i := range x.Identities() {
 			ids = append(ids, fmt.Sprintf("%s@%s(%s)=%s", i.Val, i.Module, i.Namespace, i.Value))
 		}
-		sort.Strings(ids)
+		if !KeepListOrder {
+			sort.Strings(ids)
+		}
 		fmt.Fprintf(&b, " identityref%v", ids)
 	case schema.InstanceId:
 		fmt.Fprintf(&b, " instance-identifier require=%v", x.Require())
@@ -286,9 +293,11 @@ func ModelSet(ms schema.ModelSet) *DNode {
 		m := ms.Modules()[name]
 		md := &DNode{Kind: "module", Name: name, Ref: m}
 		feats := append([]string{}, m.Features()...)
-		sort.Strings(feats)
 		devs := append([]string{}, m.Deviations()...)
-		sort.Strings(devs)
+		if !KeepListOrder {
+			sort.Strings(feats)
+			sort.Strings(devs)
+		}
 		md.Attrs = []string{
 			fmt.Sprintf("ns=%s version=%q", m.Namespace(), m.Version()),
 			fmt.Sprintf("features=%v", feats),
